@@ -103,7 +103,7 @@ Init == l = 1 /\ oracle = <<>> /\ valid = FALSE /\ act = NoAct
 Next ==
   /\ l <= Len(Tr)
   /\ LET e == Tr[l] IN
-     CASE e.op = "session" -> oracle' = <<>> /\ valid' = FALSE /\ act' = NoAct
+     CASE e.op = "session" -> oracle' = <<>> /\ valid' = FALSE /\ act' = ActOf(E!NewEngine(<<>>, 0, e.hash))
        [] e.op = "poscmd" ->
             LET bd == IF e.shape = "ucinewgame" THEN oracle ELSE Describe(e.line)
                 f == JudgeCmd(e, bd)
@@ -111,6 +111,19 @@ Next ==
                /\ oracle' = bd
                /\ valid' = IF e.shape = "ucinewgame" THEN FALSE ELSE TRUE
                /\ UNCHANGED act
+       [] e.op = "optcmd" ->
+            \* setoption name Hash | Depth | Noise value n: changes the engine's options and nothing else
+            LET s0 == Eng(oracle, act)
+                r == CASE e.name = "Hash" -> E!SetHash(s0, e.n)
+                       [] e.name = "Depth" -> E!SetDepth(s0, e.n)
+                       [] e.name = "Noise" -> E!SetNoise(s0, e.n)
+                f == Chk("harness.no-answer-in-time", e.dead = 1 \/ (e.sent = 1 /\ e.ready = 1))
+                     \cup Chk("x.uci-driver-died-on-setoption", e.dead = 0)
+                     \cup (IF e.ready = 1 THEN Chk("x.uci-option", e.opts.depth = r.s.depth /\ e.opts.hash = r.s.hash /\ e.opts.noise = r.s.noise) ELSE {})
+                     \cup (IF e.ready = 1 /\ valid THEN JudgeState(e, oracle) ELSE {})
+            IN /\ (f # {} => PrintT("FAIL|" \o ToString(l) \o "|" \o ToString(f)))
+               /\ act' = ActOf(r.s)
+               /\ UNCHANGED <<oracle, valid>>
        [] e.op = "api" ->
             \* Engine.Reset / Move / TakeBack / Analyze / Halt called directly: one Engine.tla call each
             LET s0 == Eng(oracle, act)
@@ -145,6 +158,10 @@ Next ==
                /\ oracle' = r.s.bd
                /\ act' = ActOf(r.s)
                /\ valid' = TRUE
+       [] e.op = "api-stuck" ->
+            \* an engine call that never returned (the harness gave it a minute and ended the run)
+            /\ PrintT("FAIL|" \o ToString(l) \o "|" \o ToString({(IF Want("C15") THEN "c15" ELSE "c14") \o ".engine-call-never-returns-" \o e.kind}))
+            /\ UNCHANGED <<oracle, valid, act>>
        [] e.op = "readout" ->
             /\ LET f == JudgeReadout(e) IN f # {} => PrintT("FAIL|" \o ToString(l) \o "|" \o ToString(f))
             /\ UNCHANGED <<oracle, valid, act>>
